@@ -2,8 +2,9 @@ use engine::Property;
 pub mod c05;
 pub mod c06;
 pub mod c10;
+pub mod c14;
 pub mod words;
 
 pub fn properties() -> Vec<Box<dyn Property>> {
-    vec![Box::new(c05::C05), Box::new(c06::C06), Box::new(c10::C10)]
+    vec![Box::new(c05::C05), Box::new(c06::C06), Box::new(c10::C10), Box::new(c14::C14)]
 }
